@@ -14,25 +14,38 @@ aliasing, temporaries, overload selection and staging are data movement.
 Families
   exact/...     the eager spelling is the statement itself with temporaries (`t1 = matmul(A,B); D2 op= t1 + C`).
                 All forms for which the library keeps the association: every `=`, `*=`, `/=`; `+=`/`-=` of a lazy node,
-                of a product/quotient, of a unary function.
-  reassoc/...   `D += X + Y`, `D -= X - Y`, ... with an evaluation-requiring X or Y.  The library stages these as
-                `D += X; D += Y`, i.e. (D+X)+Y instead of D+(X+Y): equal in exact arithmetic, different in the last bit
-                in floating point.  The strict clause (against the statement itself) is kept for a few cases only
-                (known finding, rounding level); the family
-  staged/...    compares the same statements with the eager spelling in the staged order
-                (`tX = X; tY = Y; D2 += tX; D2 += tY`), which must hold bit for bit.
-  alias/...     D also appears as an element-wise operand on the right-hand side.  Compared with the natural eager
-                spelling where the library keeps the association, else with the staged spelling evaluated on the OLD D.
-                (A failure here is a wrong value, not rounding: see alias-int.)
-  alias-int/... the same statements on int tensors with inputs in {0,1} (B01, bounded): integer arithmetic is
-                associative, so lazy must equal the natural eager spelling exactly.
-  scalar/...    det / trace / norm of a lazy argument used as a scalar, and compared directly.
-  etree/...     trans / trace / det(2x2) / matmul(2x2) against explicit scalar trees (no second spelling).
-  chain/...     A%B%C(%D) with non-square extents against the left-to-right product: integer data in {0,1}
-                (B01, bounded -- UF would reject a legal re-association).
+                of a product/quotient, of a unary function.  Division by a scalar (`L / s`, symbolic s): the library
+                evaluates the lazy form as tmp = L; tmp *= (1/s) -- the documented reciprocal-multiply -- so the clause
+                accepts the eager spelling with `t/s` or with `t*(1/s)` (third buffer d3).
+  staged/...    `D += X + Y`, `D -= X - Y`, ... with an evaluation-requiring X or Y.  The library stages these as
+                `D += X; D += Y`, i.e. (D+X)+Y instead of D+(X+Y).  Compared with the eager spelling in the staged
+                order (`tX = X; tY = Y; D2 += tX; D2 += tY`, both temporaries from the old state): must hold bit for bit.
+  reassoc/...   a few of the same statements against the statement itself (strict reading of the property).  Equal in
+                exact arithmetic, different in the last bit in floating point: known finding at rounding level.
+  alias/...     D also appears as an element-wise operand on the right-hand side; forms that keep the association.
+  alias-staged/...       `D +=/-= X +/- Y` where Y is D itself (or D only occurs in X): staged spelling on the old D.
+  alias-staged-expr/...  `D +=/-= X +/- Y` where Y is an *expression containing* D (C*D, abs(D), -D, trans(A)*D ...): the
+                library substitutes a copy of D for the whole of Y (wrong value, not rounding): known defect, isolated here.
+  alias-int/, alias-int-expr/...  the same statements on int tensors with inputs in {0,1} (B01, bounded): integer
+                arithmetic is associative, so lazy must equal the natural eager spelling exactly.
+  gemm-int/...  statements in which the staging hands a `%` node to assign_add / assign_sub: the library calls its GEMM
+                kernel (c = alpha*t + beta*c with alpha = +-1, beta = 1), equal to c +- t in IEEE arithmetic (up to the NaN
+                payload chosen) but not by congruence, so UF cannot decide them (filter gemm_path; checked: the UF
+                runs fail with no failing native input).  Decided on integer data in {0,1} only (bounded).
+  scalar/, scalar-in-expr/...  det / trace / norm of a lazy argument, compared directly and used as a scalar.
+  etree/...     trans inside element-wise arithmetic against explicit scalar trees (no second spelling).
+  chain/...     D = A%B%C(%E) with non-square extents (so that the library's flop-count model picks different
+                associations) and the eager left-to-right product, both against the mathematical product
+                sum a_ij b_jk c_kl: multilinear code, decided for all values by a TAGS + BASIS pair of runs
+                (vf.multilinear_cases; int, float, double -- floats as polynomials, i.e. equal up to rounding).
+  chain-acc/... D += A%B%C: affine in D, not multilinear -- integer data in {0,1} (B01, bounded).
+Shapes: 2x2 operands and 2x3.3x2 / 3x2.2x2 products in quick (3x3, 3x2.2x3, 2x4.4x3 in thorough), within a budget of
+estimated Ackermann pairs (est_pairs; halved for the ISAs without FMA, whose kernels are separate fmul + fadd).
 Not covered: ctrans/ctranspose on real element types (neither spelling compiles: no conj(double) overload);
-  statements the library rejects at compile time (`D += X + Y` where Y is inv/cof/adj/..., a TensorMap, or a
-  scalar*tensor product: missing does_alias overloads) -- reported, they cannot be cases.
+  statements the library rejects at compile time (`D += X + Y` where Y is inv/cof/adj/..., a TensorMap, one of the
+  unary functions without a does_alias overload, or a scalar*tensor product) -- reported, they cannot be cases;
+  explicit scalar trees for % / det / trace / norm (the kernels' operation order -- e.g. the trace accumulator starting
+  from 0 on SSE2 but not on SSE4.2 -- would have to be copied from the implementation; the two-spelling form needs none).
 """
 from units.common import *
 
@@ -314,6 +327,42 @@ def etree_case(ty, what, form, cfg, M=2, N=2):
     cid = 'C09/etree/%s/%s/%s/%dx%d/%s' % (ty.name, what, form, M, N, cfg.tag())
     return Case(cid, 'C09', body, bufs, ens, 'UF', cfg)
 
+# ---- product chains: multilinear in their operands (vf.multilinear_cases: TAGS + BASIS runs = proof for all values) ----
+def chain_case(ty, shapes, cfg):
+    """D1 = A % B % C [% E]  (lazy, the library picks the association)   and   D2 = matmul(matmul(A,B),C)... (eager, left to
+    right) both equal the mathematical product  sum_{j,k,..} a_ij b_jk c_kl ..  as polynomials -- hence each other, up to
+    rounding, whatever association the library chooses."""
+    T = ty.cpp
+    names = 'abce'[:len(shapes)]
+    bufs = [Buf(nm, ty, prod(sh), 'in', atoms=('T', i)) for i, (nm, sh) in enumerate(zip(names, shapes))]
+    M, Nn = shapes[0][0], shapes[-1][1]
+    d1 = Buf('d1', ty, M * Nn, 'out'); d2 = Buf('d2', ty, M * Nn, 'out')
+    L = [town(ty, sh, nm) for nm, sh in zip(names, shapes)]
+    L.append('Tensor<%s,%d,%d> D1 = %s;' % (T, M, Nn, ' % '.join(nm.upper() for nm in names)))
+    L.append(copy_out('D1', 'd1', M * Nn))
+    prev = names[0].upper(); rows = shapes[0][0]
+    for k in range(1, len(shapes)):
+        L.append('Tensor<%s,%d,%d> t%d = matmul(%s, %s);' % (T, rows, shapes[k][1], k, prev, names[k].upper()))
+        prev = 't%d' % k
+    L.append(copy_out(prev, 'd2', M * Nn))
+    body = '\n'.join('    ' + l for l in L)
+    inner = [sh[1] for sh in shapes[:-1]]
+    ens = []
+    for d in (d1, d2):
+        for i in range(M):
+            for l in range(Nn):
+                terms = []
+                for mid in itertools.product(*[range(x) for x in inner]):
+                    idx = (i,) + mid + (l,)
+                    t = None
+                    for b, sh, q in zip(bufs, shapes, range(len(shapes))):
+                        e = E.inp(b, idx[q] * sh[1] + idx[q + 1])
+                        t = e if t is None else t * e
+                    terms.append(t)
+                ens.append((d, i * Nn + l, E.total(terms, ty)))
+    cid = 'C09/chain/%s/%s/len%d/%s' % (ty.name, '_'.join('%dx%d' % sh for sh in shapes), len(shapes), cfg.tag())
+    return multilinear_cases(Case(cid, 'C09', body, bufs + [d1, d2], ens, 'SYM', cfg))
+
 # ---- statement generators -----------------------------------------------------------------------------------------
 def shapes_for(kind, thorough):
     """operand shape sets: (A, B) with A%B conformable, result D/C shape = (A rows, B cols)."""
@@ -480,8 +529,12 @@ def int_statements(thorough):
         ts = [TL('ABCEF'[i], sh) for i, sh in enumerate(ch)]
         tree = ts[0]
         for t in ts[1:]: tree = LZ('mm', tree, t)          # A % B % C ... as written (left to right)
-        for form in ('set', 'add'): S.append(('chain', tree, form, '-len%d' % len(ch)))
+        S.append(('chain-acc', tree, 'add', '-len%d' % len(ch)))     # D += chain: affine in D, not multilinear -> bounded B01
     return S
+
+CHAINS = [((2, 3), (3, 4), (4, 2)), ((3, 2), (2, 4), (4, 3)), ((2, 4), (4, 2), (2, 3)), ((2, 3), (3, 2), (2, 4), (4, 2)), ((3, 1), (1, 4), (4, 2)), ((1, 3), (3, 3), (3, 2), (2, 1)),
+          ((4, 2), (2, 3), (3, 1)), ((2, 2), (2, 5), (5, 3)), ((3, 3), (3, 1), (1, 3), (3, 2))]
+CHAINS_T = [((2, 5), (5, 2), (2, 2), (2, 3)), ((5, 2), (2, 3), (3, 4)), ((2, 3), (3, 5), (5, 2), (2, 4)), ((3, 4), (4, 1), (1, 4), (4, 3))]
 
 QUOTA = {'exact': 132, 'alias': 30, 'alias-staged': 12, 'alias-staged-expr': 18, 'staged': 24, 'reassoc': 6, 'scalar': 15, 'scalar-in-expr': 9, 'etree': 10}
 PMAX = {'quick': 2800, 'thorough': 9000}
@@ -505,13 +558,29 @@ def cases(tier, seed):
             if fam == 'reassoc': lst = lst[:24]
             for i, st in enumerate(lst):
                 for j in range(3): work.append((st, (i + 4 * j + j) % len(combos)))         # every statement on three (ISA, type) cells
+    def limit(isa, ty):
+        # without FMA the product kernels are separate fmul + fadd applications (twice the Ackermann pairs); the SSE2 double
+        # kernels (2 lanes) were the ones that ran out of time in the measurements
+        base = PMAX['thorough' if thorough else 'quick']
+        if isa in ('avx2', 'avx512'): return base
+        return base // 2 if ty is DBL else base * 5 // 7
     for (fam, tree, form, spelling), ci in work:
+        if fam not in ('scalar', 'etree'):
+            est = est_pairs(tree, form)
+            for k in range(len(combos)):           # the first (ISA, type) cell in rotation whose budget the statement fits
+                isa, ty = combos[(ci + k) % len(combos)]
+                if est <= limit(isa, ty): ci = (ci + k) % len(combos); break
         isa, ty = combos[ci]
         cfg = Cfg(isa, 'c++14', pipe='P0')
         if fam == 'scalar': c = scalar_case(ty, tree[0], tree[1], cfg)
         elif fam == 'etree': c = etree_case(ty, tree[0], form, cfg, tree[1], tree[2])
         else: c = lazy_case(fam, ty, tree, form, cfg, spelling)
         if c is not None: out.append(c)
+    # ---- product chains against the mathematical product (multilinear: TAGS + BASIS runs)
+    il = isas(tier)
+    for i, ch in enumerate(CHAINS + (CHAINS_T if thorough else [])):
+        for j, isa in enumerate(il if thorough else [il[i % len(il)], il[(i + 1) % len(il)]]):
+            out += chain_case([INT, FLT, DBL][(i + j) % 3], ch, Cfg(isa, 'c++14'))
     # ---- bounded integer families (B01)
     IS = int_statements(thorough)
     il = isas(tier)
@@ -528,5 +597,6 @@ def evidence_extra(tier):
                     'assignment_forms': '= += -= *= /=',
                     'shapes': '2x2, 2x3.3x2, 3x2.2x2 (quick); + 3x3, 3x2.2x3, 2x4.4x3 (thorough)',
                     'aliasing': 'destination as element-wise operand (D, C*D, D-C, abs(D), -D, D*D) next to a lazy node',
-                    'chains': 'length 3-4 (5 thorough), non-square extents, int data in {0,1} (bounded)',
-                    'types': 'float double (UF); int (bounded B01 families)', 'isas': isas(tier)}}
+                    'chains': 'length 3-4, non-square extents: multilinear TAGS+BASIS proof (int float double); D += chain bounded B01',
+                    'types': 'float double (UF); int (bounded B01 families, multilinear chains)', 'isas': isas(tier),
+                    'statements_skipped_gemm_reformulation': SKIPPED.get('gemm', 0), 'statements_skipped_budget': SKIPPED.get('budget', 0)}}
